@@ -422,9 +422,8 @@ Definition sap_inner (cv : cvars) : cvars := {| cv_pk := Some (None, true); cv_s
 (* print_config_if_requested (_actions.py:280-290) on the ROOT parser; `has x` says whether cfg has a
    namespace for sub-command x, `sel` whether cfg selects a sub-command.  None = nothing requested, go on.
    The dump of the whole configuration (key None) fails with a KeyError when a sub-command is required and
-   either cfg selects none (validate -> get_subcommands) or skip_default asks for the defaults, which never
-   select one (_core.py:801 strip_link_target_keys -> get_subcommands); by then both pops are done and the
-   attribute is still there.  The same happens when cfg holds a key no action claims (unk): dump validates
+   cfg selects none (validate -> get_subcommands); by then both pops are done and the attribute is still there.
+   (Until fix e6822fd skip_default failed likewise on the defaults, which never select a sub-command.)  The same happens when cfg holds a key no action claims (unk): dump validates
    and check_values raises NSKeyError, which lenient_check does not swallow. *)
 Definition consume (D : decl) (pend : pending) (has : str -> bool) (sel : bool) (unk : bool) (nested : bool)
   (empty : bool) (dp : option dv) (cv : cvars) : option (out * pending * cvars) :=
@@ -445,10 +444,9 @@ Definition consume (D : decl) (pend : pending) (has : str -> bool) (sel : bool) 
           else Some (OErr EStaleKey, PBroken fl, cv)              (* cfg[key] raises after both pops *)
       | None =>
           let req := d_subreq D && negb (match d_subs D with [] => true | _ => false end) in
+          (* since fix e6822fd skip_default no longer fails on the defaults of a parser with a required sub-command
+             (the KeyError of strip_link_target_keys(defaults) is suppressed, _core.py:818) *)
           if unk || (req && negb sel) then Some (OErr EPrintFail, PBroken fl, cv)
-          else if req && f_sd fl then
-            Some (OErr EPrintFail, PBroken fl,
-                  {| cv_pk := cv_pk cv; cv_sap := cv_sap cv; cv_dk := dk_after (d_root D) false (f_sn fl) false (cv_dk cv) |})
           else
             Some (OPrint key fl nested dp, PNone,
                   {| cv_pk := cv_pk cv; cv_sap := cv_sap cv;
@@ -716,9 +714,7 @@ Definition exec (fx : fixes) (D : decl) (i : nat) (v : view) (k : opk) : out * w
       let w cv := {| w_pending := v_pending v; w_shtab := v_shtab v; w_help_skip := v_help_skip v;
                      w_ddef := if sv then v_ddef v else dd_checked fx (v_ddef v) d; w_cv := cv; w_args := [] |} in
       if corrupt && negb sv then (OExc, keep v)     (* k is re-checked (and rejected) before d *)
-      else if sd && d_subreq D && negb (match d_subs D with [] => true | _ => false end)
-           then (OExc, w (cvd (dk_after (d_root D) sv sn false)))     (* KeyError from the defaults, see consume *)
-           else (OOk false None None, w (cvd (dk_after (d_root D) sv sn sd)))
+      else (OOk false None None, w (cvd (dk_after (d_root D) sv sn sd)))
   | Validate d corrupt =>
       if corrupt then (OExc, keep v)
       else (OOk false None None,
